@@ -167,6 +167,8 @@ func (s *swarm[A]) MTU() int {
 
 func (s *swarm[A]) Close() error {
 	s.cf()
+	// blocked Receive calls return now; they do not have to wait for a callback that is still running.
+	s.tells.CloseWithError(p2p.ErrClosed)
 	return s.Swarm.Close()
 }
 
